@@ -2089,7 +2089,7 @@ static void print_cmd_list(struct cat_object *self)
 
         switch (self->cmd_type) {
         case CAT_CMD_TYPE_NONE:
-                if (self->cmd->disable != false) {
+                if (is_command_disable(self, self->index) != false) {
                         if (cmd_list_next_cmd(self) == false)
                                 ack_ok(self);
                         break;
